@@ -6,6 +6,8 @@ def text_edit(old, new):
         return src.replace(old, new, 1) if old in src else None
     return edit
 MUTANTS = [
+    Mutant('deps_unconditional', 'src/pharmpy/model/statements.py', text_edit("                if statement.symbol in symbs:\n                    symbs = (symbs - {statement.symbol}) | statement.rhs_symbols", "                if True:\n                    symbs = (symbs - {statement.symbol}) | statement.rhs_symbols"), 'D9', 'definitions applied although not wanted'),
+    Mutant('deps_gen_before_kill', 'src/pharmpy/model/statements.py', text_edit("symbs = (symbs - {statement.symbol}) | statement.rhs_symbols", "symbs = (symbs | statement.rhs_symbols) - {statement.symbol}"), 'D8', 'self-referencing statement loses its symbol'),
     Mutant('additional_not_closed', 'src/pharmpy/model/statements.py', text_edit("            additional |= set(nx.dfs_preorder_nodes(graph, add))", "            additional |= set(graph.successors(add))"), 'D6', 'one level only'),
     Mutant('users_after_only', 'src/pharmpy/model/statements.py', text_edit("if up != removed_ind and up not in candidates and down in candidates", "if up > removed_ind and down in candidates"), 'D7', 'users before the edited statement ignored'),
     Mutant('bolus_raw_amount', F, edit_node('Bolus.free_symbols', lambda n, seg: isinstance(n, ast.Return), lambda seg: 'return {self._amount}'), 'D1', 'expression instead of its symbols'),
